@@ -75,7 +75,7 @@ def run(ctx):
         results = [f.result() for f in futs]
     payloads, jobs = {}, []
     case, n_emitted = 0, 0
-    max_mc = ctx.pick(260, 12000)
+    max_mc = ctx.pick(200, 6000)
     for (module, cfg, _), res in zip(jobs_mc, results):
         insts = res.printed
         n_emitted += len(insts)
